@@ -44,6 +44,9 @@ SetSteady(s, on) sets the solver's own option ParameterSolveInitialSteadyState (
 ParameterInitialSteadyStateMaxTime = 40; the search converges for both blocks): every solve with the option on
 runs the search, so the reference is taken per option as well (block [: body] [+ss]) and a re-solve is compared
 with the previous solve and with the fresh-process run made with the same option.
+A block is a body (A or B) plus optional settings lines: X = MaxTime only, Xc / Xf = MaxTime and a coarse /
+fine Err_Tolerance, X0 = no line (parser defaults: horizon 0, tolerance 1e-8), Xt = coarse tolerance only; a
+solver that is re-parsed with a block lacking a line must fall back to the defaults, not to the previous block.
 Conformance clauses (DRIFT only): id counter and logger registry after every action, cached
 VariableList, number of ('k', ...) entries SetInitialConditions has appended to Parser.Exogenous
 (one per solve: the list grows, the series do not change), text of Model.FinalEquations.
@@ -65,7 +68,7 @@ from harness import core  # noqa: E402
 LOG_NAMES = ['log', 'eqn', 'timeseries', 'step', 'steadystate_0']
 PRODUCE = ('Main', 'Solve', 'SolveAgain')
 
-BLOCKS = {
+BODIES = {
     'A': {'text': """
 x = 0.5*LAG_x + g
 LAG_x = x(k-1)
@@ -73,8 +76,7 @@ y = x + a
 a = 3.0
 exogenous
 g = [1.0, 2.0, 3.0, 4.0, 5.0, 6.0]
-MaxTime = 4
-""", 'horizon': 4, 'func': False, 'declared': ['LAG_x', 'a', 'g', 'x', 'y']},
+""", 'func': False, 'declared': ['LAG_x', 'a', 'g', 'x', 'y']},
     'B': {'text': """
 x = f(w) + 0.25*LAG_x
 LAG_x = x(k-1)
@@ -82,9 +84,24 @@ w = 0.5*x + g
 v = x - w
 exogenous
 g = [2.0]*8
-MaxTime = 4
-""", 'horizon': 4, 'func': True, 'declared': ['LAG_x', 'g', 'v', 'w', 'x']},
+""", 'func': True, 'declared': ['LAG_x', 'g', 'v', 'w', 'x']},
 }
+# a block = a body + OPTIONAL settings lines; without a line the parser default holds (MaxTime 0, Err_Tolerance 1e-8)
+TOLERANCE = {'default': '1e-8', 'coarse': '1e-3', 'fine': '1e-11'}
+TOL_CLASS = dict((v, k) for k, v in TOLERANCE.items())
+SETTINGS = {'': (True, 'default'), 'c': (True, 'coarse'), 'f': (True, 'fine'), '0': (False, 'default'),
+            't': (False, 'coarse')}        # suffix -> (MaxTime line?, tolerance class; 'default' = no line)
+BLOCK_MAXTIME = 4
+BLOCKS = {}
+for _b, _body in BODIES.items():
+    for _sfx, (_mt, _tol) in SETTINGS.items():
+        _text = _body['text']
+        if _mt:
+            _text += 'MaxTime = %d\n' % BLOCK_MAXTIME
+        if _tol != 'default':
+            _text += 'Err_Tolerance = %s\n' % TOLERANCE[_tol]
+        BLOCKS[_b + _sfx] = {'text': _text, 'horizon': BLOCK_MAXTIME if _mt else 0, 'tol': _tol,
+                             'func': _body['func'], 'declared': _body['declared']}
 MODEL_HORIZON = {'SIM': 2, 'TWO': 6}
 def _act(a, x='', b='', k=0):
     return {'a': a, 'x': x, 'b': b, 'k': k}
@@ -94,15 +111,16 @@ REFERENCE_HIST = {
     'SIM': [_act('NewModel', 'SIM'), _act('DeclareHead', 'SIM'), _act('DeclareRest', 'SIM'), _act('Main', 'SIM')],
     'TWO': [_act('NewModel', 'TWO'), _act('DeclareHead', 'TWO'), _act('DeclareRest', 'TWO'), _act('Main', 'TWO')],
 }
-for _blk, _body in (('A', ''), ('B', 'none'), ('B', 'f1'), ('B', 'f2')):
-    for _ss in (False, True):
-        _h = []
-        if _body in ('f1', 'f2'):
-            _h.append(_act('AddFunction', 's1', _body))
-        if _ss:
-            _h.append(_act('SetSteady', 's1', '', 1))
-        _h += [_act('Reparse', 's1', _blk), _act('Solve', 's1', _blk)]
-        REFERENCE_HIST[_blk + (':' + _body if _body else '') + ('+ss' if _ss else '')] = _h
+for _blk in sorted(BLOCKS):
+    for _body in (('none', 'f1', 'f2') if BLOCKS[_blk]['func'] else ('',)):
+        for _ss in (False, True):
+            _h = []
+            if _body in ('f1', 'f2'):
+                _h.append(_act('AddFunction', 's1', _body))
+            if _ss:
+                _h.append(_act('SetSteady', 's1', '', 1))
+            _h += [_act('Reparse', 's1', _blk), _act('Solve', 's1', _blk)]
+            REFERENCE_HIST[_blk + (':' + _body if _body else '') + ('+ss' if _ss else '')] = _h
 STEADY_MAXTIME = 40
 
 
@@ -149,7 +167,7 @@ def blank(ev, x='', b='', k=0):
     return {'ev': ev, 'x': x, 'b': b, 'k': k, 'ok': True, 'exc': '', 'same_keys': True, 'same_vals': True,
             'full': True, 'same_prev': True, 'same_eqs': True, 'varlist': [], 'nk': 0, 'id1': 0,
             'logs': {}, 'diff': '', 'traced': False, 'hasfunc': False, 'remnants': [], 'exp_ok': True, 'steady': False,
-            'ss': False}
+            'ss': False, 'hz': 0, 'tol': 'default'}
 
 
 def compare(ev, snap, ref, horizon):
@@ -335,6 +353,8 @@ def execute(hist, refs, base):
                     ev['varlist'] = [str(v) for v in sol.VariableList]
                     ev['nk'] = sum(1 for e in sol.Parser.Exogenous if e[0] == 'k')
                     ev['steady'] = bool(sol.ParameterSolveInitialSteadyState)
+                    ev['hz'] = int(sol.Parser.MaxTime)
+                    ev['tol'] = TOL_CLASS.get(str(sol.Parser.Err_Tolerance).strip(), 'other')
             elif a == 'SetTrace':
                 if x in MODEL_HORIZON:
                     models[x]['model'].EquationSolver.TraceStep = (k if k else None)
@@ -422,17 +442,20 @@ def run_children(jobs, wd, workers=None):
     return out
 
 
-def references(wd):
-    """Each distinct model / block alone in a fresh subprocess."""
-    names = sorted(REFERENCE_HIST)
+def references(wd, blocks=None):
+    """Each distinct model / block (per function body and steady-state option) alone in a fresh subprocess;
+    blocks: the block names that occur in the histories to be judged (None = all)."""
+    names = sorted(n for n in REFERENCE_HIST
+                   if n in MODEL_HORIZON or blocks is None or n.split('+')[0].split(':')[0] in blocks)
     got = run_children([{'items': [{'tid': 'ref:' + n, 'hist': REFERENCE_HIST[n]}], 'refs': None} for n in names], wd)
     refs = {}
     for n in names:
         evs = got['ref:' + n]
         last = evs[-1]
         bad = [e for e in evs if not e['ok']]
-        if n.split('+')[0].endswith(':none'):
-            # a block that calls f, solved by a solver without f: alone it must fail with NameError
+        if n.split('+')[0].endswith(':none') and (BLOCKS[n.split(':')[0]]['horizon'] >= 1 or n.endswith('+ss')):
+            # a block that calls f, solved by a solver without f: alone it must fail with NameError (as soon as a
+            # period is iterated: not with horizon 0 and no steady-state search)
             if len(bad) != 1 or bad[0] is not last or not last['exc'].startswith('NameError') or 'snap' not in last:
                 raise core.MachineryError('reference run of %s: expected NameError in the solve, got %s' % (
                     n, json.dumps(bad[:1] or last)[:400]))
@@ -474,12 +497,18 @@ def signature(clause, events):
     e = first_bad(events)
     if e is None:
         return clause + ':unlocated'
+    settings_differ = e['ev'] in ('Solve', 'SolveAgain') and e['b'] in BLOCKS and \
+        (e['hz'], e['tol']) != (BLOCKS[e['b']]['horizon'], BLOCKS[e['b']]['tol'])
     if clause == 'C17_ReparseClean':
         if e['remnants'] and set(e['remnants']) <= set(e['varlist']):
             return 'stale-variable-list-after-reparse'        # the cached VariableList still names them
         if e['remnants']:
             return 'remnant-series-after-reparse'
+        if settings_differ:
+            return 'settings-of-previous-block-after-reparse'
         return 'reparse-key-set-differs:' + e['b']
+    if settings_differ:
+        return 'settings-of-previous-block-after-reparse'      # the parser holds a horizon / tolerance the block does not state
     if e['ok'] and not e['exp_ok']:
         return 'solves-with-a-function-it-never-registered'
     if not e['ok']:
@@ -626,16 +655,19 @@ def judge(rep, behs, refs, wd, n_fresh, n_batches):
 
 def run(rep):
     quick = rep.tier == 'quick'
-    cfgs = ['MC_Process_quick.cfg', 'MC_Process_quick2.cfg', 'MC_Process_quick3.cfg', 'MC_Process_quick4.cfg']
+    cfgs = ['MC_Process_quick.cfg', 'MC_Process_quick2.cfg', 'MC_Process_quick3.cfg', 'MC_Process_quick4.cfg',
+            'MC_Process_quick5.cfg']
     if not quick:
-        cfgs += ['MC_Process_thorough%s.cfg' % n for n in ('', '2', '3', '4', '5', '6', '7')]
+        cfgs += ['MC_Process_thorough%s.cfg' % n for n in ('', '2', '3', '4', '5', '6', '7', '8')]
     rep.rule = ('histories = all maximal behaviours of the bounded Process instances emitted by TLC that contain a '
                 'Main / Solve / SolveAgain (2 models, each declared in two parts so that other models are created in '
-                'between; 2 blocks sharing variable names; the user function registered per solver with one of 2 '
-                'bodies; the steady-state option per solver; instances: 1 solver length 5; 2 solvers length 4; models '
-                'only length 6; model TWO + 1 solver length 6 restricted to histories with both a Main and a Solve; '
+                'between; 2 block bodies sharing variable names, each with optional MaxTime / Err_Tolerance lines; the '
+                'user function registered per solver with one of 2 bodies; the steady-state option per solver; '
+                'instances: 1 solver length 5; 2 solvers length 4; models only length 6; model TWO + 1 solver length 6 '
+                'restricted to histories with both a Main and a Solve; 1 solver over 7 block variants length 4; '
                 'thorough: also 1 solver length 6; 2 solvers length 5; models only length 7 and, untraced, length 8; '
-                'SIM / TWO + 1 solver length 7 (Main and Solve); both models + 1 solver length 5); '
+                'SIM / TWO + 1 solver length 7 (Main and Solve); both models + 1 solver length 5; 1 solver over 7 '
+                'block variants length 5); '
                 'each executed in a child process after the other histories of its batch (mode accumulated), a '
                 'seeded sample also alone (mode fresh); distinct = distinct (history, mode); non-trivial = some '
                 'result is computed after at least one action that is not part of computing it alone')
@@ -648,10 +680,6 @@ def run(rep):
                        'PYTHONHASHSEED=0 in every child; TLC 1.8 / tla2tools']
     wd = core.workdir('c17')
     try:
-        t0 = time.time()
-        refs = references(wd)
-        _phase(rep, 'reference_runs', t0)
-        rep.extra['reference_runs'] = len(refs)
         t0 = time.time()
         with concurrent.futures.ThreadPoolExecutor(max_workers=len(cfgs)) as ex:
             results = list(ex.map(lambda c: core.tlc('MC_Process', c, workers=1, tag='c17'), cfgs))
@@ -672,6 +700,10 @@ def run(rep):
                     behs.append(b)
             del res.printed[:]
             res.stdout = ''
+        t0 = time.time()
+        refs = references(wd, set(a['b'] for b in behs for a in b['hist'] if a['a'] == 'Reparse'))
+        _phase(rep, 'reference_runs', t0)
+        rep.extra['reference_runs'] = len(refs)
         round_size = 8000 if quick else 16000
         n_rounds = int(math.ceil(len(behs) / float(round_size)))
         n_fresh_total = 48 if quick else 320
@@ -692,7 +724,8 @@ def replay(path):
     case = data['case']
     wd = core.workdir('c17r')
     try:
-        refs = references(wd)
+        used = set(a['b'] for h in list(case.get('prefix', [])) + [case['hist']] for a in h if a['a'] == 'Reparse')
+        refs = references(wd, used)
         items = [{'tid': 'p%d' % i, 'hist': h} for i, h in enumerate(case.get('prefix', []))]
         items.append({'tid': 'case', 'hist': case['hist']})
         observed = run_children([{'items': items, 'refs': refs}], wd)
